@@ -24,7 +24,10 @@ import (
 	sdkmath "cosmossdk.io/math"
 	sdk "github.com/cosmos/cosmos-sdk/types"
 
+	abci "github.com/cometbft/cometbft/abci/types"
+
 	"github.com/kava-labs/kava/app"
+	"github.com/kava-labs/kava/x/cdp"
 	"github.com/kava-labs/kava/x/hard"
 	"github.com/kava-labs/kava/x/incentive"
 	inckeeper "github.com/kava-labs/kava/x/incentive/keeper"
@@ -70,11 +73,17 @@ type histCfg struct {
 	ClaimEndOff int64       `json:"claim_end_off_ns"`
 	Mults       [][]multCfg `json:"mults"` // per reward denom
 	Macc        []string    `json:"macc"`  // funding of the incentive module account per reward denom
+	// cdp: the stability fee per second ("" or "1.0" = none); hard: the base APY of the interest model ("" = all-zero model)
+	Interest string `json:"interest,omitempty"`
+	// delegator: staking MaxValidators (0 = the default 100); with 2 the weakest of the three validators is outside the bonded set
+	MaxVals int `json:"max_vals,omitempty"`
 }
 
+func (c *histCfg) hasInterest() bool { return c.Interest != "" && c.Interest != "1.0" }
+
 type op struct {
-	Kind string `json:"kind"` // block | deposit | withdraw | trade | claim
-	U    int    `json:"u"` // the user whose position (or claim) the operation is about
+	Kind string `json:"kind"`        // block | deposit | withdraw | trade | claim
+	U    int    `json:"u"`           // the user whose position (or claim) the operation is about
 	K    int    `json:"k,omitempty"` // the sender when it is somebody else (keeper, third-party depositor / repayer)
 	P    int    `json:"p"`
 	Dt   int64  `json:"dt_ns,omitempty"`
@@ -83,6 +92,9 @@ type op struct {
 	Slip string `json:"slip,omitempty"`
 	D    int    `json:"d"`           // claim: reward denom index (nDenoms = unknown denom)
 	M    string `json:"m,omitempty"` // claim: multiplier name
+	// params: the reward period of pool P is replaced by PC (absent = removed); CE != 0: new claim end offset
+	PC *periodCfg `json:"pc,omitempty"`
+	CE int64      `json:"ce_ns,omitempty"`
 }
 
 type hist struct {
@@ -102,6 +114,8 @@ func dimsOf(src string) (nU, nP int) {
 		return 4, 2 // users 0..2 cdp owners, 3 keeper/third-party depositor; pools = collateral types
 	case "hard":
 		return 4, 4 // pools 0,1 = supply of hardDenoms; 2,3 = borrow of hardDenoms
+	case "earn":
+		return 3, 4 // pools 0,1 = busd, usdx vaults; 2,3 = the bkava vaults of two validators
 	}
 	return 3, 3
 }
@@ -111,11 +125,16 @@ func rdOf(src string) []string {
 	if src == "cdp" {
 		return []string{"ukava", "zzz"} // USDX minting pays ukava only; the second denom is never rewarded
 	}
+	if src == "earn" {
+		return []string{"swp", "ukava"} // forwarded staking rewards arrive in ukava
+	}
 	return rewardDenoms
 }
 
 // does the source guarantee total = sum of the share records exactly
-func exactOf(src string) bool { return src == "swap" || src == "cdp" }
+func exactOf(src string, cfg *histCfg) bool {
+	return src == "swap" || src == "earn" || (src == "cdp" && !cfg.hasInterest())
+}
 
 func bigOf(s string) *big.Int {
 	x, ok := new(big.Int).SetString(s, 10)
@@ -131,7 +150,7 @@ func genCfg(r *Rng, src string, nPools int) histCfg {
 	for p := 0; p < nPools; p++ {
 		pc := periodCfg{Rates: []string{"0", "0"}}
 		present := true
-		if p == 2 {
+		if p == 2 && src != "earn" {
 			present = r.Chance(1, 3)
 		} else if r.Chance(1, 12) {
 			present = false
@@ -220,6 +239,16 @@ func genCfg(r *Rng, src string, nPools int) histCfg {
 		}
 		c.Mults = append(c.Mults, ms)
 	}
+	// two of three cdp / hard histories run with interest (the others keep total = sum of shares exact)
+	if src == "cdp" && r.Chance(2, 3) {
+		c.Interest = []string{"1.000000001547125958", "1.00000002", "1.00000005", "1.000000051034942716"}[r.Intn(4)]
+	}
+	if src == "delegator" && r.Chance(1, 2) {
+		c.MaxVals = 2
+	}
+	if src == "hard" && r.Chance(2, 3) {
+		c.Interest = []string{"0.05", "0.5", "0.99"}[r.Intn(3)]
+	}
 	for d := 0; d < nDenoms; d++ {
 		if r.Chance(1, 7) {
 			c.Macc = append(c.Macc, fmt.Sprint(r.Intn(2000)))
@@ -246,13 +275,83 @@ type world struct {
 	addrs  []sdk.AccAddress
 	cfg    histCfg
 	t0     int64 // genesis time, unix nanoseconds
+	// earn source
+	extra    []sdk.AccAddress // third parties (not model users)
+	bkVals   []sdk.ValAddress
+	bkDenoms []string
+	lastBk   []bkInfo // what the bkava accumulation of the last block read from x/liquid and x/distribution
+	tried    histCfg  // the configuration the last params operation asked for
+}
+
+// incParams builds the incentive params of a configuration: the reward periods of the source, the
+// claim end and the multipliers (used for the genesis and for parameter changes in a history)
+func incParams(src string, cfg *histCfg, rd []string) inctypes.Params {
+	t0 := GenesisTime
+	params := inctypes.DefaultParams()
+	for p, pc := range cfg.Periods {
+		if !pc.Present {
+			continue
+		}
+		var rates sdk.Coins
+		for d, rs := range pc.Rates {
+			if amt := bigOf(rs); amt.Sign() > 0 {
+				rates = rates.Add(sdk.NewCoin(rd[d], sdkmath.NewIntFromBigInt(amt)))
+			}
+		}
+		start, end := t0.Add(time.Duration(pc.StartOff)), t0.Add(time.Duration(pc.EndOff))
+		if src == "cdp" {
+			rate := sdk.NewCoin(rd[0], sdk.ZeroInt())
+			if len(rates) > 0 {
+				rate = rates[0]
+			}
+			params.USDXMintingRewardPeriods = append(params.USDXMintingRewardPeriods,
+				inctypes.NewRewardPeriod(true, cdpTypes[p], start, end, rate))
+		} else if src == "hard" && p < 2 {
+			params.HardSupplyRewardPeriods = append(params.HardSupplyRewardPeriods,
+				inctypes.NewMultiRewardPeriod(true, hardDenoms[p], start, end, rates))
+		} else if src == "hard" {
+			params.HardBorrowRewardPeriods = append(params.HardBorrowRewardPeriods,
+				inctypes.NewMultiRewardPeriod(true, hardDenoms[p-2], start, end, rates))
+		} else if src == "earn" {
+			if p > earnBkPool {
+				continue // the bkava vaults share the single "bkava" period (cfg.Periods[earnBkPool])
+			}
+			ct := "bkava"
+			if p < earnBkPool {
+				ct = earnPlain[p]
+			}
+			params.EarnRewardPeriods = append(params.EarnRewardPeriods,
+				inctypes.NewMultiRewardPeriod(true, ct, start, end, rates))
+		} else if src == "delegator" {
+			params.DelegatorRewardPeriods = append(params.DelegatorRewardPeriods,
+				inctypes.NewMultiRewardPeriod(true, inctypes.BondDenom, start, end, rates))
+		} else {
+			params.SwapRewardPeriods = append(params.SwapRewardPeriods,
+				inctypes.NewMultiRewardPeriod(true, poolID(p), start, end, rates))
+		}
+	}
+	params.ClaimEnd = t0.Add(time.Duration(cfg.ClaimEndOff))
+	for d, ms := range cfg.Mults {
+		var mm inctypes.Multipliers
+		for _, m := range ms {
+			mm = append(mm, inctypes.NewMultiplier(m.Name, m.Months, sdk.MustNewDecFromStr(m.Factor)))
+		}
+		params.ClaimMultipliers = append(params.ClaimMultipliers, inctypes.MultipliersPerDenom{Denom: rd[d], Multipliers: mm})
+	}
+	return params
 }
 
 func setup(src string, cfg histCfg) *world {
+	// the periods change during a history (parameter changes): work on a copy
+	cfg.Periods = append([]periodCfg(nil), cfg.Periods...)
+	for i := range cfg.Periods {
+		cfg.Periods[i].Rates = append([]string(nil), cfg.Periods[i].Rates...)
+	}
 	tApp := NewApp()
 	nUsers, nPools := dimsOf(src)
 	rd := rdOf(src)
-	users := Addrs(nUsers)
+	all := Addrs(nUsers + nExtra)
+	users, extra := all[:nUsers], all[nUsers:]
 	cdc := tApp.AppCodec()
 	b := app.NewAuthBankGenesisBuilder()
 	funds := sdk.NewCoins(
@@ -266,6 +365,17 @@ func setup(src string, cfg histCfg) *world {
 			sdk.NewCoin("xrp", sdkmath.NewIntFromBigInt(Pow10(24))),
 		)
 	}
+	if src == "earn" {
+		funds = sdk.NewCoins(
+			sdk.NewCoin("busd", sdkmath.NewIntFromBigInt(Pow10(24))),
+			sdk.NewCoin("usdx", sdkmath.NewIntFromBigInt(Pow10(24))),
+		)
+		b.WithSimpleAccount(extra[xMinter], sdk.NewCoins(sdk.NewCoin("ukava", sdkmath.NewIntFromBigInt(Pow10(15)))))
+		b.WithSimpleAccount(extra[xOp0], sdk.NewCoins(sdk.NewCoin("ukava", sdkmath.NewIntFromBigInt(Pow10(13)))))
+		b.WithSimpleAccount(extra[xOp1], sdk.NewCoins(sdk.NewCoin("ukava", sdkmath.NewIntFromBigInt(Pow10(13)))))
+		b.WithSimpleAccount(extra[xWhale], sdk.NewCoins(sdk.NewCoin("usdx", sdkmath.NewIntFromBigInt(Pow10(14)))))
+		b.WithSimpleAccount(extra[xBorrower], sdk.NewCoins(sdk.NewCoin("bnb", sdkmath.NewIntFromBigInt(Pow10(18))), sdk.NewCoin("usdx", sdkmath.NewIntFromBigInt(Pow10(12)))))
+	}
 	for i := 0; i < nUsers; i++ {
 		b.WithSimpleAccount(users[i], funds)
 	}
@@ -278,56 +388,35 @@ func setup(src string, cfg histCfg) *world {
 	swapGen := swaptypes.NewGenesisState(swaptypes.NewParams(allowed, sdk.MustNewDecFromStr("0.003")), swaptypes.DefaultPoolRecords, swaptypes.DefaultShareRecords)
 	// incentive genesis
 	incGen := inctypes.DefaultGenesisState()
-	for p, pc := range cfg.Periods {
-		if !pc.Present {
-			continue
-		}
-		var rates sdk.Coins
-		for d, rs := range pc.Rates {
-			if amt := bigOf(rs); amt.Sign() > 0 {
-				rates = rates.Add(sdk.NewCoin(rd[d], sdkmath.NewIntFromBigInt(amt)))
-			}
-		}
-		start, end := t0.Add(time.Duration(pc.StartOff)), t0.Add(time.Duration(pc.EndOff))
-		if src == "cdp" {
-			incGen.Params.USDXMintingRewardPeriods = append(incGen.Params.USDXMintingRewardPeriods,
-				inctypes.NewRewardPeriod(true, cdpTypes[p], start, end, rates[0]))
-		} else if src == "hard" && p < 2 {
-			incGen.Params.HardSupplyRewardPeriods = append(incGen.Params.HardSupplyRewardPeriods,
-				inctypes.NewMultiRewardPeriod(true, hardDenoms[p], start, end, rates))
-		} else if src == "hard" {
-			incGen.Params.HardBorrowRewardPeriods = append(incGen.Params.HardBorrowRewardPeriods,
-				inctypes.NewMultiRewardPeriod(true, hardDenoms[p-2], start, end, rates))
-		} else if src == "delegator" {
-			incGen.Params.DelegatorRewardPeriods = append(incGen.Params.DelegatorRewardPeriods,
-				inctypes.NewMultiRewardPeriod(true, inctypes.BondDenom, t0.Add(time.Duration(pc.StartOff)), t0.Add(time.Duration(pc.EndOff)), rates))
-		} else {
-			incGen.Params.SwapRewardPeriods = append(incGen.Params.SwapRewardPeriods,
-				inctypes.NewMultiRewardPeriod(true, poolID(p), t0.Add(time.Duration(pc.StartOff)), t0.Add(time.Duration(pc.EndOff)), rates))
-		}
-	}
-	incGen.Params.ClaimEnd = t0.Add(time.Duration(cfg.ClaimEndOff))
-	for d, ms := range cfg.Mults {
-		var mm inctypes.Multipliers
-		for _, m := range ms {
-			mm = append(mm, inctypes.NewMultiplier(m.Name, m.Months, sdk.MustNewDecFromStr(m.Factor)))
-		}
-		incGen.Params.ClaimMultipliers = append(incGen.Params.ClaimMultipliers, inctypes.MultipliersPerDenom{Denom: rd[d], Multipliers: mm})
-	}
+	incGen.Params = incParams(src, &cfg, rd)
 	gss := []app.GenesisState{
 		b.BuildMarshalled(cdc),
 		app.GenesisState{swaptypes.ModuleName: cdc.MustMarshalJSON(&swapGen)},
 		app.GenesisState{inctypes.ModuleName: cdc.MustMarshalJSON(&incGen)},
 	}
 	if src == "cdp" {
-		gss = append(gss, cdpGenesis(cdc)...)
+		gss = append(gss, cdpGenesis(cdc, &cfg)...)
 	}
 	if src == "hard" {
-		gss = append(gss, hardGenesis(cdc)...)
+		gss = append(gss, hardGenesis(cdc, &cfg)...)
+	}
+	if src == "earn" {
+		gss = append(gss, earnGenesis(cdc)...)
 	}
 	tApp.InitializeFromGenesisStatesWithTime(t0, gss...)
-	w := &world{src: src, rd: rd, nU: nUsers, nP: nPools, tApp: tApp, height: 2, t: t0, ik: tApp.GetIncentiveKeeper(), sk: tApp.GetSwapKeeper(), addrs: users, cfg: cfg, t0: t0.UnixNano()}
+	w := &world{src: src, rd: rd, nU: nUsers, nP: nPools, tApp: tApp, height: 2, t: t0, ik: tApp.GetIncentiveKeeper(), sk: tApp.GetSwapKeeper(), addrs: users, extra: extra, cfg: cfg, t0: t0.UnixNano()}
 	w.ctx = NewCtx(tApp, w.height, w.t)
+	if src == "earn" {
+		w.setupEarn()
+	}
+	if src == "delegator" && cfg.MaxVals > 0 {
+		stk := tApp.GetStakingKeeper()
+		sp := stk.GetParams(w.ctx)
+		sp.MaxValidators = uint32(cfg.MaxVals)
+		if err := stk.SetParams(w.ctx, sp); err != nil {
+			panic(err)
+		}
+	}
 	var fund sdk.Coins
 	for d, a := range cfg.Macc {
 		if amt := bigOf(a); amt.Sign() > 0 {
@@ -357,6 +446,30 @@ type snap struct {
 	bal    [][]*big.Int   // user, denom
 	macc   []*big.Int
 	sumSh  []*big.Int // per pool: sum over ALL share records (raw iteration), Dec mantissa
+	hasIdx []bool     // per pool: global reward indexes exist in the store (earn only)
+}
+
+// sumUsers is the sum of the model users' shares in pool p
+func (s *snap) sumUsers(p int) *big.Int {
+	x := big.NewInt(0)
+	for u := range s.sh {
+		x.Add(x, s.sh[u][p])
+	}
+	return x
+}
+
+// delegator source: kinds in which one user acts on his own delegation (the hooks synchronise the actor only)
+func actorKind(kind string) bool {
+	return kind == "mkval" || kind == "delegate" || kind == "undelegate" || kind == "redelegate"
+}
+
+// kinds that are not about a user's position or claim: nothing of the incentive state may move
+func noPosition(kind string) bool {
+	switch kind {
+	case "trade", "price", "lq-mint", "lq-burn", "stk-reward", "slash", "params":
+		return true
+	}
+	return false
 }
 
 func decMant(d sdk.Dec) *big.Int { return new(big.Int).Set(d.BigInt()) }
@@ -379,6 +492,8 @@ func (w *world) snap() *snap {
 		w.snapCdp(s)
 	case "hard":
 		w.snapHard(s)
+	case "earn":
+		w.snapEarn(s)
 	default:
 		w.snapSwap(s)
 	}
@@ -520,6 +635,14 @@ func (w *world) doClaim(ctx sdk.Context, o op) error {
 		_, err := inckeeper.NewMsgServerImpl(w.ik).ClaimHardReward(sdk.WrapSDKContext(ctx), msg)
 		return err
 	}
+	if w.src == "earn" {
+		msg := &inctypes.MsgClaimEarnReward{Sender: w.addrs[o.U].String(), DenomsToClaim: sel}
+		if err := msg.ValidateBasic(); err != nil {
+			return err
+		}
+		_, err := inckeeper.NewMsgServerImpl(w.ik).ClaimEarnReward(sdk.WrapSDKContext(ctx), msg)
+		return err
+	}
 	if w.src == "delegator" {
 		msg := &inctypes.MsgClaimDelegatorReward{Sender: w.addrs[o.U].String(), DenomsToClaim: sel}
 		if err := msg.ValidateBasic(); err != nil {
@@ -542,8 +665,15 @@ func (w *world) exec(o op) (Class, error) {
 		w.height++
 		w.t = w.t.Add(time.Duration(o.Dt))
 		w.ctx = NewCtx(w.tApp, w.height, w.t)
+		if w.src == "earn" {
+			w.captureBk()
+		}
 		return Atomically(w.ctx, func(ctx sdk.Context) error {
-			if w.src == "hard" {
+			if w.src == "cdp" && w.cfg.hasInterest() {
+				// interest accrual, synchronisation of the riskiest cdps and liquidations run before incentive, as in app/app.go
+				cdp.BeginBlocker(ctx, abci.RequestBeginBlock{}, w.tApp.GetCDPKeeper())
+			}
+			if w.src == "hard" || w.src == "earn" {
 				hard.BeginBlocker(ctx, w.tApp.GetHardKeeper()) // interest accrual runs before incentive, as in app/app.go
 			}
 			incentive.BeginBlocker(ctx, w.ik)
@@ -588,10 +718,14 @@ func (w *world) exec(o op) (Class, error) {
 		})
 	case "claim":
 		return Atomically(w.ctx, func(ctx sdk.Context) error { return w.doClaim(ctx, o) })
-	case "mkval", "endblock", "delegate", "undelegate", "redelegate":
+	case "mkval", "endblock", "delegate", "undelegate", "redelegate", "val-slash", "val-jail", "val-unjail":
 		return w.execDeleg(o)
 	case "price":
 		return w.execPrice(o)
+	case "params":
+		return w.execParams(o)
+	case "earn-deposit", "earn-withdraw", "lq-mint", "lq-burn", "stk-reward", "slash":
+		return w.execEarn(o)
 	}
 	if strings.HasPrefix(o.Kind, "cdp-") {
 		return w.execCdp(o)
@@ -658,7 +792,9 @@ type mon struct {
 	claimed   [][]*big.Int // user, denom: amounts removed from the claim by claims
 	nround    []int64      // per user: CalculateSingleReward roundings allowed so far (per denom)
 	idxSlack  [][]*big.Rat // user, denom: sum of share * 1.5e-18 over accumulations with an increment
-	emission  []*big.Int   // per denom: sum of rate*secs over accumulations with shares
+	emission  []*big.Rat   // per denom: sum of rate*secs (+ forwarded staking rewards) over accumulations with shares
+	overshare []*big.Rat   // per denom: sum over accumulations of increment * max(0, sum of the users' shares - total)
+	driftUp   []*big.Rat   // per denom: sum over bystander revalues of (index difference) * (increase of shares)
 	totSlack  []*big.Rat   // per denom: sum of total * 0.5e-18 over those accumulations
 }
 
@@ -676,13 +812,26 @@ func newMon(cfg *histCfg, t0 int64, nUsers, nPools int, exact bool) *mon {
 		m.nround = append(m.nround, 0)
 	}
 	for d := 0; d < nDenoms; d++ {
-		m.emission = append(m.emission, new(big.Int))
+		m.emission = append(m.emission, new(big.Rat))
+		m.overshare = append(m.overshare, new(big.Rat))
+		m.driftUp = append(m.driftUp, new(big.Rat))
 		m.totSlack = append(m.totSlack, new(big.Rat))
 	}
 	return m
 }
 
 type verdict struct{ pred, sig, detail string }
+
+// signature of the known finding (known_findings.json): over-distribution by the drift between the
+// sum of the users' normalised amounts and the normalised total under interest
+const driftSig = "total-credited-exceeds-emission-share-total-drift"
+
+// signature of the second known finding of the family: a third party unbonding from a slashed validator
+// grows the bystanders' stakes by up to a token without any hook; their unsynchronised index difference is
+// then paid on the grown stake
+const bystanderSig = "total-credited-exceeds-emission-bystander-stake-drift"
+
+func knownSig(sig string) bool { return sig == driftSig || sig == bystanderSig }
 
 func ratOfMant(x *big.Int) *big.Rat { return new(big.Rat).SetFrac(x, prec) }
 
@@ -696,13 +845,31 @@ func (m *mon) check(w *world, o op, cls Class, err error, before, after *snap, c
 	}
 	fb, fa := before.flat(), after.flat()
 	nUsers, nPools := m.nU, m.nP
-	// the source guarantees total = (>=) sum of the share records
+	// the source guarantees total = sum of the share records (swap, earn, cdp without interest), or
+	// total >= sum (delegator, hard without interest); under interest the normalised amounts drift by
+	// rounding in both directions: what the users' shares exceed the total by enters the emission bound
+	// (overshare) and is measured
 	for p := 0; p < nPools; p++ {
-		if c := after.sumSh[p].Cmp(after.tot[p]); (m.exact && c != 0) || c > 0 {
+		c := after.sumSh[p].Cmp(after.tot[p])
+		if c > 0 && w.src == "delegator" && new(big.Int).Sub(after.sumSh[p], after.tot[p]).Cmp(big.NewInt(100)) <= 0 {
+			// Validator.TokensFromShares rounds each delegation half-even at the 18th decimal: the Dec stakes of the
+			// delegators of a slashed validator may add up to a few 10^-18 tokens more than its integer tokens
+			mark("deleg:stake-sum-exceeds-bonded-by-rounding")
+			c = 0
+		}
+		if (m.exact && c != 0) || (c > 0 && !w.cfg.hasInterest()) {
 			return &verdict{"source-total-covers-sum-of-shares", "source-total-differs-from-share-sum", fmt.Sprintf("pool %d: sum %s total %s", p, after.sumSh[p], after.tot[p])}
+		}
+		if c > 0 {
+			mark("interest:shares-exceed-total")
+		} else if c < 0 && w.cfg.hasInterest() {
+			mark("interest:shares-below-total")
 		}
 	}
 	if cls != ClassOk {
+		if o.Kind == "params" {
+			mark("params:refused")
+		}
 		if o.Kind == "block" {
 			return &verdict{"begin-blocker-never-fails", "begin-blocker-" + cls.String(), fmt.Sprint(err)}
 		}
@@ -732,13 +899,52 @@ func (m *mon) check(w *world, o op, cls Class, err error, before, after *snap, c
 	switch o.Kind {
 	case "block":
 		t := after.now.Int64()
+		ulp := new(big.Rat).SetFrac(big.NewInt(1), prec)
 		for p := 0; p < nPools; p++ {
+			// what this pool's accumulation works with: the period, the rate per reward denom (an
+			// integer coin rate, or for a bkava vault its proportional part rate*v/V) and the staking
+			// rewards forwarded to the vault
 			pc := m.cfg.Periods[p]
-			if !pc.Present {
+			present := pc.Present
+			rates := make([]*big.Rat, nDenoms)
+			stk := make([]*big.Int, nDenoms)
+			rateErr := new(big.Rat) // absolute error of the rate the code works with (bkava: two roundings)
+			mulErr := new(big.Rat)
+			for d := range rates {
+				rates[d], stk[d] = new(big.Rat).SetInt(bigOf(pc.Rates[d])), big.NewInt(0)
+			}
+			if w.src == "earn" && p >= earnBkPool {
+				pc = m.cfg.Periods[earnBkPool]
+				bk := w.bkFor(p)
+				present = pc.Present && bk != nil
+				inSet := before.tot[p].Sign() > 0 || before.hasIdx[p]
+				if pc.Present && inSet != (bk != nil) {
+					return &verdict{"bkava-vaults-visited-are-those-with-a-record-or-indexes", "bkava-vault-set-wrong", fmt.Sprintf("pool %d", p)}
+				}
+				if present {
+					for d := range rates {
+						rates[d] = new(big.Rat)
+						if bk.V.Sign() > 0 {
+							rates[d].SetFrac(new(big.Int).Mul(bigOf(pc.Rates[d]), bk.v), bk.V)
+						}
+						stk[d] = bk.stk[d]
+						if stk[d].Sign() > 0 {
+							mark("bkava:staking-rewards-forwarded")
+						}
+					}
+					rateErr.Mul(ulp, big.NewRat(3, 2))
+					mulErr.Mul(ulp, big.NewRat(1, 2))
+					mark("bkava:accumulate")
+				}
+			}
+			if !present {
 				for d := 0; d < nDenoms; d++ {
 					if after.gidx[p][d].Cmp(before.gidx[p][d]) != 0 {
 						return &verdict{"no-period-no-accrual", "accrual-without-period", fmt.Sprintf("pool %d", p)}
 					}
+				}
+				if after.gtime[p].Cmp(before.gtime[p]) != 0 {
+					return &verdict{"no-period-no-accrual", "accrual-time-moved-without-period", fmt.Sprintf("pool %d", p)}
 				}
 				continue
 			}
@@ -773,12 +979,12 @@ func (m *mon) check(w *world, o op, cls Class, err error, before, after *snap, c
 			} else {
 				mark("window:first-accumulation")
 			}
-			m.prevBlock[p] = t
 			// accrual time advances to min(end, t): never the same second twice
 			wantT := t
 			if end < t {
 				wantT = end
 			}
+			m.prevBlock[p] = wantT
 			if after.gtime[p].Int64() != wantT {
 				return &verdict{"accrual-time-advances-to-min-end-now", "accrual-time-wrong", fmt.Sprintf("pool %d: got %s want %d", p, after.gtime[p], wantT)}
 			}
@@ -801,14 +1007,21 @@ func (m *mon) check(w *world, o op, cls Class, err error, before, after *snap, c
 				}
 			}
 			T := after.tot[p] // Dec mantissa; the source's own begin blocker (interest) runs before incentive's
-			active := T.Sign() > 0 && secs.Sign() > 0
 			if dur > 0 && T.Sign() == 0 {
 				mark("accumulate:no-shares-rewards-dropped")
 			}
 			for d := 0; d < nDenoms; d++ {
-				rate := bigOf(pc.Rates[d])
+				// rewards of this accumulation: rate * whole seconds + forwarded staking rewards
+				E := new(big.Rat).SetInt(stk[d])
+				eErr := new(big.Rat)
+				if secs.Sign() > 0 {
+					E.Add(E, new(big.Rat).Mul(rates[d], new(big.Rat).SetInt(secs)))
+					if rates[d].Sign() > 0 {
+						eErr.Add(new(big.Rat).Mul(rateErr, new(big.Rat).SetInt(secs)), mulErr)
+					}
+				}
 				dI := new(big.Int).Sub(after.gidx[p][d], before.gidx[p][d])
-				if !active || rate.Sign() == 0 {
+				if T.Sign() <= 0 || E.Sign() == 0 {
 					if dI.Sign() != 0 {
 						return &verdict{"no-accrual-outside-window", "accrual-outside-window",
 							fmt.Sprintf("pool %d denom %d: index moved by %s with dur %d ns, total %s", p, d, dI, dur, T)}
@@ -816,31 +1029,51 @@ func (m *mon) check(w *world, o op, cls Class, err error, before, after *snap, c
 					continue
 				}
 				mark("accumulate:increment")
-				// exact increment rate*secs/T (T mantissa => value T/1e18): dI/1e18 within 1.5e-18 of it
-				exact := new(big.Rat).SetFrac(new(big.Int).Mul(new(big.Int).Mul(rate, secs), prec), T)
+				// exact increment E/T (T mantissa => value T/1e18): dI/1e18 within 1.5e-18 of it
+				// (plus, for a bkava vault, the roundings of the proportional rate and of rate*seconds)
+				Tval := ratOfMant(T)
+				exact := new(big.Rat).Quo(E, Tval)
 				diff := new(big.Rat).Sub(ratOfMant(dI), exact)
-				ulp15 := new(big.Rat).SetFrac(big.NewInt(3), new(big.Int).Mul(prec, big.NewInt(2)))
-				if diff.Cmp(ulp15) > 0 || diff.Cmp(new(big.Rat).Neg(ulp15)) < 0 {
+				tol := new(big.Rat).Add(new(big.Rat).Mul(ulp, big.NewRat(3, 2)), new(big.Rat).Quo(eErr, Tval))
+				if diff.Cmp(tol) > 0 || diff.Cmp(new(big.Rat).Neg(tol)) < 0 {
 					return &verdict{"index-increment-is-rate-secs-over-total", "index-increment-wrong",
-						fmt.Sprintf("pool %d denom %d: increment %s, rate %s secs %s total %s", p, d, dI, rate, secs, T)}
+						fmt.Sprintf("pool %d denom %d: increment %s, rewards %s (rate %s secs %s staking %s) total %s", p, d, dI, E.FloatString(6), rates[d].FloatString(6), secs, stk[d], T)}
 				}
-				m.emission[d].Add(m.emission[d], new(big.Int).Mul(rate, secs))
-				m.totSlack[d].Add(m.totSlack[d], new(big.Rat).Mul(ratOfMant(T), new(big.Rat).SetFrac(big.NewInt(1), new(big.Int).Mul(prec, big.NewInt(2)))))
+				m.emission[d].Add(m.emission[d], E)
+				m.totSlack[d].Add(m.totSlack[d], new(big.Rat).Add(eErr, new(big.Rat).Mul(Tval, new(big.Rat).Mul(ulp, big.NewRat(1, 2)))))
+				// what the users' shares exceed the total by is over-distributed on top of the emission
+				if over := new(big.Int).Sub(after.sumUsers(p), T); over.Sign() > 0 {
+					m.overshare[d].Add(m.overshare[d], new(big.Rat).Mul(new(big.Rat).Add(exact, tol), ratOfMant(over)))
+				}
 				for u := 0; u < nUsers; u++ {
-					s := before.sh[u][p]
+					s := after.sh[u][p] // the source's own begin blocker (cdp: risky cdps, liquidations) runs before incentive's
 					if s.Sign() == 0 {
 						continue
 					}
-					// rate*secs*s/T
-					m.J[u][d].Add(m.J[u][d], new(big.Rat).SetFrac(new(big.Int).Mul(new(big.Int).Mul(rate, secs), s), T))
-					m.idxSlack[u][d].Add(m.idxSlack[u][d], new(big.Rat).Mul(ratOfMant(s), new(big.Rat).SetFrac(big.NewInt(3), new(big.Int).Mul(prec, big.NewInt(2)))))
+					// E*s/T
+					m.J[u][d].Add(m.J[u][d], new(big.Rat).Mul(exact, ratOfMant(s)))
+					m.idxSlack[u][d].Add(m.idxSlack[u][d], new(big.Rat).Mul(ratOfMant(s), tol))
+				}
+			}
+		}
+		if w.src == "cdp" {
+			for u := 0; u < nUsers; u++ {
+				for p := 0; p < nPools; p++ {
+					if before.sh[u][p].Sign() > 0 && after.sh[u][p].Sign() == 0 {
+						mark("cdp-block:cdp-liquidated")
+					}
 				}
 			}
 		}
 		// shares, stored claims and balances do not move in a begin block
 		for u := 0; u < nUsers; u++ {
 			for d := 0; d < nDenoms; d++ {
-				if after.rew[u][d].Cmp(before.rew[u][d]) != 0 || after.bal[u][d].Cmp(before.bal[u][d]) != 0 {
+				// (the cdp begin blocker synchronises the riskiest cdps: stored rewards move, synchronised ones do not)
+				cdpSync := w.src == "cdp" && w.cfg.hasInterest()
+				if cdpSync && after.rew[u][d].Cmp(before.rew[u][d]) != 0 {
+					mark("cdp-block:risky-cdp-synchronised")
+				}
+				if (after.rew[u][d].Cmp(before.rew[u][d]) != 0 && !cdpSync) || after.bal[u][d].Cmp(before.bal[u][d]) != 0 {
 					return &verdict{"block-touches-only-global-state", "block-changed-claim", fmt.Sprintf("user %d", u)}
 				}
 				if after.synced[u][d].Cmp(before.synced[u][d]) < 0 {
@@ -852,6 +1085,23 @@ func (m *mon) check(w *world, o op, cls Class, err error, before, after *snap, c
 		// a position change alters nobody's accrued reward, the actor's included
 		for u := 0; u < nUsers; u++ {
 			for d := 0; d < nDenoms; d++ {
+				// delegator source: a third party's delegation to a slashed validator moves the exchange rate of the
+				// validator's shares, so a bystander's tokens move by rounding without any hook: the unsynchronised
+				// reward then moves by (index difference) * (change of shares), re-rounded
+				if w.src == "delegator" && u != o.U && actorKind(o.Kind) && after.sh[u][0].Cmp(before.sh[u][0]) != 0 {
+					ds := new(big.Int).Abs(new(big.Int).Sub(after.sh[u][0], before.sh[u][0]))
+					di := new(big.Int).Sub(before.gidx[0][d], before.uidx[u][0][d])
+					allow := new(big.Rat).SetFrac(new(big.Int).Mul(ds, di), new(big.Int).Mul(prec, prec))
+					m.idxSlack[u][d].Add(m.idxSlack[u][d], allow)
+					if after.sh[u][0].Cmp(before.sh[u][0]) > 0 {
+						m.driftUp[d].Add(m.driftUp[d], allow)
+					}
+					mark("deleg:bystander-revalued")
+					diff := new(big.Rat).SetInt(new(big.Int).Abs(new(big.Int).Sub(after.synced[u][d], before.synced[u][d])))
+					if diff.Cmp(new(big.Rat).Add(allow, big.NewRat(1, 1))) <= 0 {
+						continue
+					}
+				}
 				if after.synced[u][d].Cmp(before.synced[u][d]) != 0 {
 					sig := "position-change-altered-other-users-reward"
 					if u == o.U {
@@ -877,12 +1127,17 @@ func (m *mon) check(w *world, o op, cls Class, err error, before, after *snap, c
 				}
 			}
 		}
-		if o.Kind == "endblock" {
-			// validator set updates synchronise the delegators of the validators that changed state
+		if o.Kind == "endblock" || o.Kind == "val-slash" || o.Kind == "val-jail" || o.Kind == "val-unjail" {
+			// validator set updates and slashes synchronise the delegators of the validators concerned
 			for u := 0; u < nUsers; u++ {
 				m.nround[u] += 2
+				if after.sh[u][0].Cmp(before.sh[u][0]) < 0 {
+					mark("deleg:stake-left-bonded-set-or-slashed")
+				} else if after.sh[u][0].Cmp(before.sh[u][0]) > 0 {
+					mark("deleg:stake-entered-bonded-set")
+				}
 			}
-		} else if o.Kind != "trade" && o.Kind != "price" {
+		} else if !noPosition(o.Kind) {
 			m.nround[o.U] += int64(2 + nPools) // a redelegation synchronises twice, a hard message every pool of the user
 			pp := o.P
 			if nPools == 1 {
@@ -920,7 +1175,23 @@ func (m *mon) check(w *world, o op, cls Class, err error, before, after *snap, c
 		} else {
 			for i := range fb {
 				if fb[i].Cmp(fa[i]) != 0 {
-					return &verdict{"trade-leaves-incentive-state", "trade-changed-incentive-state", fmt.Sprintf("slot %d", i)}
+					sig := "trade-changed-incentive-state"
+					if o.Kind == "params" {
+						sig = "parameter-change-altered-accrued-state"
+					}
+					return &verdict{"trade-leaves-incentive-state", sig, fmt.Sprintf("%s: slot %d", o.Kind, i)}
+				}
+			}
+			if o.Kind == "params" {
+				switch {
+				case o.CE != 0:
+					mark("params:claim-end-moved")
+				case o.PC == nil:
+					mark("params:period-removed")
+				case m.prevBlock[o.P] >= 0 && m.prevBlock[o.P] < before.now.Int64() && o.PC.Present:
+					mark("params:period-added-with-stale-accrual-time")
+				default:
+					mark("params:period-changed")
 				}
 			}
 		}
@@ -1011,12 +1282,35 @@ func (m *mon) check(w *world, o op, cls Class, err error, before, after *snap, c
 					fmt.Sprintf("user %d denom %d: credited %s (synced %s + claimed %s), integral %s, allowed slack %s", u, d, credited, after.synced[u][d], m.claimed[u][d], m.J[u][d].FloatString(6), slack.FloatString(6))}
 			}
 		}
-		bound := new(big.Rat).SetInt(m.emission[d])
+		// the bound as the property words it: emission + one base unit per two roundings + the index rounding
+		bound := new(big.Rat).Set(m.emission[d])
 		bound.Add(bound, new(big.Rat).Mul(half, new(big.Rat).SetInt64(sumRound)))
 		bound.Add(bound, m.totSlack[d])
 		if new(big.Rat).SetInt(sumCredited).Cmp(bound) > 0 {
-			return &verdict{"never-over-distributed", "total-credited-exceeds-emission",
-				fmt.Sprintf("denom %d: credited %s > emission %s + slack", d, sumCredited, m.emission[d])}
+			// Known finding: under interest the sum of the users' normalised amounts exceeds the normalised
+			// total the accumulation divides by (the source rounds the interest on the total to an integer);
+			// every accumulation then credits increment * (sum - total) on top of the emission.  What is
+			// credited within emission + rounding + that overshare is the finding; anything above is not.
+			sig := "total-credited-exceeds-emission"
+			withOver := new(big.Rat).Add(bound, m.overshare[d])
+			if w.src == "delegator" && new(big.Rat).SetInt(sumCredited).Cmp(withOver) <= 0 {
+				continue // the 18-decimal rounding of the token conversion (at most 100e-18 tokens, checked above)
+			}
+			// delegator source: when a third party undelegates from a slashed validator, staking pays out whole
+			// tokens and the validator keeps the fraction, so the bystanders' stakes grow by up to one token without
+			// any hook; the index difference they have not yet synchronised is then paid on the grown stake
+			withDrift := new(big.Rat).Add(withOver, m.driftUp[d])
+			if w.src == "delegator" && new(big.Rat).SetInt(sumCredited).Cmp(withDrift) <= 0 {
+				// Known finding (second of the family): credited within emission + rounding + the drift term
+				mark("deleg:credited-exceeds-emission-by-bystander-drift")
+				sig = bystanderSig
+			}
+			if (w.src == "hard" || w.src == "cdp") && w.cfg.hasInterest() && new(big.Rat).SetInt(sumCredited).Cmp(withOver) <= 0 {
+				sig = driftSig
+			}
+			return &verdict{"never-over-distributed", sig,
+				fmt.Sprintf("denom %d: credited %s > emission %s + rounding slack %s (overshare + bystander drift %s)", d, sumCredited, m.emission[d].FloatString(6),
+					new(big.Rat).Sub(bound, m.emission[d]).FloatString(6), new(big.Rat).Add(m.overshare[d], m.driftUp[d]).FloatString(6))}
 		}
 	}
 	return nil
@@ -1084,6 +1378,10 @@ func (w *world) genBlockDt(r *Rng) int64 {
 }
 
 func (w *world) genOp(r *Rng, s *snap, step int) op {
+	// the setup steps of a source come first; afterwards one operation in 25 is a parameter change
+	if step >= 4 && r.Chance(1, 25) {
+		return w.genParams(r)
+	}
 	switch w.src {
 	case "delegator":
 		return w.genOpDeleg(r, s, step)
@@ -1091,6 +1389,8 @@ func (w *world) genOp(r *Rng, s *snap, step int) op {
 		return w.genOpCdp(r, s, step)
 	case "hard":
 		return w.genOpHard(r, s, step)
+	case "earn":
+		return w.genOpEarn(r, s, step)
 	}
 	nUsers, nPools := w.nU, w.nP
 	u := r.Intn(nUsers)
@@ -1171,44 +1471,99 @@ func (w *world) genOp(r *Rng, s *snap, step int) op {
 // block time, or for a successful source message the (user, pool, new shares,
 // new total) of every position the message synchronises or changes.
 func coqOps(w *world, o op, cls Class, before, after *snap) []string {
+	var out []string
+	for _, x := range coqBaseOps(w, o, cls, before, after) {
+		if strings.HasPrefix(x, "SetParams") {
+			out = append(out, x)
+		} else {
+			out = append(out, "O ("+x+")")
+		}
+	}
+	return out
+}
+
+func coqBaseOps(w *world, o op, cls Class, before, after *snap) []string {
 	change := func(u, p int) string {
 		return fmt.Sprintf("Change %s %s %s %s", Nat(u), Nat(p), Z(after.sh[u][p]), Z(after.tot[p]))
 	}
 	held := func(u, p int) bool { return before.sh[u][p].Sign() > 0 || after.sh[u][p].Sign() > 0 }
-	if o.Kind != "block" && o.Kind != "claim" && cls != ClassOk {
+	if o.Kind != "block" && o.Kind != "claim" && o.Kind != "params" && cls != ClassOk {
 		return []string{"Other false"}
 	}
 	switch o.Kind {
 	case "block":
-		// totals moved by the source's own begin blocker (accrued interest) are told first
+		// positions the source's own begin blocker synchronised or changed (cdp: the riskiest cdps, liquidations),
+		// then the totals it moved (accrued interest), are told first
 		var out []string
+		if w.src == "cdp" && cls == ClassOk {
+			for u := range after.sh {
+				for p := range after.tot {
+					moved := after.sh[u][p].Cmp(before.sh[u][p]) != 0
+					for d := 0; d < nDenoms; d++ {
+						if before.sh[u][p].Sign() > 0 && after.uidx[u][p][d].Cmp(before.uidx[u][p][d]) != 0 {
+							moved = true
+						}
+					}
+					if moved {
+						out = append(out, change(u, p))
+					}
+				}
+			}
+		}
 		for p := range after.tot {
 			if after.tot[p].Cmp(before.tot[p]) != 0 {
 				out = append(out, fmt.Sprintf("SetTotal %s %s", Nat(p), Z(after.tot[p])))
 			}
 		}
-		return append(out, fmt.Sprintf("Block %s", Z(after.now)))
+		out = append(out, fmt.Sprintf("Block %s", Z(after.now)))
+		// the bkava vaults the begin blocker visited, in the order of their denoms (any order gives the same state)
+		if w.src == "earn" && cls == ClassOk {
+			pc := w.cfg.Periods[earnBkPool]
+			for _, bk := range w.lastBk {
+				out = append(out, fmt.Sprintf("BkAcc %s (%s) %s %s %s", Nat(bk.p), coqPeriod(w, pc), Z(bk.v), Z(bk.V), ZList(bk.stk)))
+			}
+		}
+		return out
 	case "deposit", "withdraw":
 		return []string{change(o.U, o.P)}
 	case "mkval", "delegate", "undelegate", "redelegate":
-		return []string{change(o.U, 0)}
-	case "endblock":
-		// validators that became bonded: the bonded stake of their delegators changes
+		// the hooks synchronise the actor; a bystander whose tokens moved (exchange rate of a slashed
+		// validator) is revalued: no hook ran for him
+		out := []string{change(o.U, 0)}
+		for u := range after.sh {
+			if u != o.U && after.sh[u][0].Cmp(before.sh[u][0]) != 0 {
+				out = append(out, fmt.Sprintf("Revalue %s %s %s", Nat(u), Nat(0), Z(after.sh[u][0])))
+			}
+		}
+		return out
+	case "endblock", "val-slash", "val-jail", "val-unjail":
+		// validators that entered or left the bonded set, or were slashed: the hooks synchronise every
+		// delegator of the validator (with the stake recorded so far), then the bonded stake changes
 		var out []string
 		for u := range after.sh {
-			if after.sh[u][0].Cmp(before.sh[u][0]) != 0 {
+			moved := after.sh[u][0].Cmp(before.sh[u][0]) != 0
+			for d := 0; d < nDenoms; d++ {
+				if before.sh[u][0].Sign() > 0 && after.uidx[u][0][d].Cmp(before.uidx[u][0][d]) != 0 {
+					moved = true
+				}
+			}
+			if moved {
 				out = append(out, change(u, 0))
 			}
 		}
-		if len(out) == 0 && after.tot[0].Cmp(before.tot[0]) != 0 {
+		if after.tot[0].Cmp(before.tot[0]) != 0 {
 			out = append(out, fmt.Sprintf("SetTotal %s %s", Nat(0), Z(after.tot[0])))
 		}
 		if len(out) == 0 {
 			out = append(out, "Other true")
 		}
 		return out
-	case "trade", "price":
+	case "earn-deposit", "earn-withdraw":
+		return []string{change(o.U, o.P)}
+	case "trade", "price", "lq-mint", "lq-burn", "stk-reward", "slash":
 		return []string{"Other true"}
+	case "params":
+		return []string{w.coqSetParams()}
 	case "claim":
 		m := "None"
 		if f := w.cfg.factor(o.D, o.M); f != nil {
@@ -1249,20 +1604,25 @@ func coqObs(cls Class, fb, fa []*big.Int) string {
 	return fmt.Sprintf("mkObs %s %s", cls.Coq(), List(ch))
 }
 
+func coqPeriod(w *world, pc periodCfg) string {
+	rates := make([]*big.Int, nDenoms)
+	for d := range rates {
+		rates[d] = bigOf(pc.Rates[d])
+	}
+	return fmt.Sprintf("mk_period %s %s %s", Z(big.NewInt(w.t0+pc.StartOff)), Z(big.NewInt(w.t0+pc.EndOff)), ZList(rates))
+}
+
 func (w *world) coqHeader(s0 *snap) string {
 	var pds []string
-	for _, pc := range w.cfg.Periods {
-		if !pc.Present {
+	for p, pc := range w.cfg.Periods {
+		// the bkava vaults have no entry of their own in the period table: the shared period travels with BkAcc
+		if !pc.Present || (w.src == "earn" && p >= earnBkPool) {
 			pds = append(pds, "None")
 			continue
 		}
-		rates := make([]*big.Int, nDenoms)
-		for d := range rates {
-			rates[d] = bigOf(pc.Rates[d])
-		}
-		pds = append(pds, fmt.Sprintf("Some (mk_period %s %s %s)", Z(big.NewInt(w.t0+pc.StartOff)), Z(big.NewInt(w.t0+pc.EndOff)), ZList(rates)))
+		pds = append(pds, fmt.Sprintf("Some (%s)", coqPeriod(w, pc)))
 	}
-	env := fmt.Sprintf("(mk_env %s %s %s %s %s %s)", Nat(w.nU), Nat(w.nP), Nat(nDenoms), List(pds), Z(big.NewInt(w.t0+w.cfg.ClaimEndOff)), Bool(exactOf(w.src)))
+	env := fmt.Sprintf("(mk_env %s %s %s %s %s %s)", Nat(w.nU), Nat(w.nP), Nat(nDenoms), List(pds), Z(big.NewInt(w.t0+w.cfg.ClaimEndOff)), Bool(exactOf(w.src, &w.cfg)))
 	return fmt.Sprintf("%s\n  %s %s %s %s\n  %s", env, Z(big.NewInt(w.t0)), ZList(s0.macc), ZList(s0.gtime), ZList(s0.tot), ZList(s0.flat()))
 }
 
@@ -1272,6 +1632,7 @@ type runOut struct {
 	ops    []op
 	coq    string
 	fail   *Failure
+	known  *Failure // first occurrence of the known finding (reported only when nothing else fails)
 	okOps  int
 	splits map[string]bool
 }
@@ -1282,7 +1643,7 @@ func runHist(seed uint64, idx, n int, src string, cfg histCfg, ops []op, cnt *Co
 	out := runOut{splits: map[string]bool{}}
 	prev := w.snap()
 	head := w.coqHeader(prev)
-	m := newMon(&w.cfg, w.t0, w.nU, w.nP, exactOf(src))
+	m := newMon(&w.cfg, w.t0, w.nU, w.nP, exactOf(src, &w.cfg))
 	for p := 0; p < w.nP; p++ {
 		m.prevBlock[p] = prev.gtime[p].Int64() // the test app runs one begin block at genesis time
 	}
@@ -1318,12 +1679,22 @@ func runHist(seed uint64, idx, n int, src string, cfg histCfg, ops []op, cnt *Co
 			out.okOps++
 		}
 		steps = append(steps, fmt.Sprintf("(%s,\n    %s)", List(coqOps(w, o, cls, prev, after)), coqObs(cls, prev.flat(), after.flat())))
-		if v := m.check(w, o, cls, err, prev, after, cnt, out.splits); v != nil && out.fail == nil {
-			out.fail = &Failure{History: idx, Step: i, Predicate: v.pred, Signature: v.sig, Detail: v.detail}
+		if v := m.check(w, o, cls, err, prev, after, cnt, out.splits); v != nil {
+			f := &Failure{History: idx, Step: i, Predicate: v.pred, Signature: v.sig, Detail: v.detail}
+			if knownSig(v.sig) {
+				if out.known == nil {
+					out.known = f
+				}
+			} else if out.fail == nil {
+				out.fail = f
+			}
 		}
 		prev = after
 	}
 	out.coq = fmt.Sprintf("mkHist %s\n  %s", head, List(steps))
+	if out.fail == nil && out.known != nil {
+		out.fail = out.known
+	}
 	return out
 }
 
@@ -1336,12 +1707,17 @@ var allSplits = []string{
 	"change:sync-with-positive-index-delta", "change:sync-with-zero-index-delta", "change:sync-credited-reward",
 	"claim:ok", "claim:ok-with-rounding", "claim:zero-claim", "claim:claim-expired", "claim:invalid-multiplier",
 	"claim:claim-not-found", "claim:insufficient-module-account-balance",
+	"bkava:accumulate", "bkava:staking-rewards-forwarded",
+	"interest:shares-exceed-total", "interest:shares-below-total",
+	"cdp-block:risky-cdp-synchronised", "cdp-block:cdp-liquidated",
+	"deleg:bystander-revalued", "deleg:stake-left-bonded-set-or-slashed", "deleg:stake-entered-bonded-set",
+	"params:period-changed", "params:period-removed", "params:period-added-with-stale-accrual-time", "params:claim-end-moved", "params:refused",
 }
 
-// the sources rotate over the history index: of every 8 histories 2 drive swap,
-// 1 the delegator source, 2 cdp USDX minting, 3 hard supply + borrow
+// the sources rotate over the history index: of every 10 histories 2 drive swap,
+// 1 the delegator source, 2 cdp USDX minting, 3 hard supply + borrow, 2 earn
 func srcOf(i int) string {
-	return []string{"swap", "cdp", "hard", "delegator", "hard", "cdp", "swap", "hard"}[i%8]
+	return []string{"swap", "cdp", "hard", "delegator", "earn", "hard", "cdp", "swap", "earn", "hard"}[i%10]
 }
 
 func runC09(o Opts) (*Result, error) {
@@ -1350,7 +1726,7 @@ func runC09(o Opts) (*Result, error) {
 		n = defaultL
 	}
 	res := &Result{Property: "C09", Seed: o.Seed,
-		Rule: fmt.Sprintf("histories of %d operations (blocks with incentive.BeginBlocker, swap MsgDeposit/MsgWithdraw/MsgSwapExactForTokens, MsgClaimSwapReward) generated from splitmix64(seed, history index) on a fresh app.TestApp with a random reward-period configuration; a history is non-trivial when a synchronisation credited a positive reward to a claim (change:sync-credited-reward) or a claim paid out (claim:ok); distinct by hash of configuration + operation list", n)}
+		Rule: fmt.Sprintf("histories of %d operations of one reward source (rotating: swap, cdp USDX minting, hard supply+borrow, delegator, earn incl. bkava vaults): the source's real messages and begin/end blockers, incentive.BeginBlocker, MsgClaim*Reward, keeper slashes, incentive SetParams, generated from splitmix64(seed, history index) on a fresh app.TestApp with a random reward-period configuration (interest on or off); followed by the fixed witnesses of the known findings; a history is non-trivial when a synchronisation credited a positive reward to a claim (change:sync-credited-reward) or a claim paid out (claim:ok); distinct by hash of configuration + operation list", n)}
 	cnt := NewCounters()
 
 	if o.Replay != "" {
@@ -1384,15 +1760,33 @@ func runC09(o Opts) (*Result, error) {
 		return res, nil
 	}
 
-	outs := make([]runOut, o.N)
-	cfgs := make([]histCfg, o.N)
-	ParallelFor(o.N, o.Workers, func(i int) {
+	// the fixed histories (the minimal witnesses of the known finding) run after the generated ones on every run
+	fixed := fixedHists()
+	total := o.N + len(fixed)
+	outs := make([]runOut, total)
+	cfgs := make([]histCfg, total)
+	srcs := make([]string, total)
+	ParallelFor(total, o.Workers, func(i int) {
+		if i >= o.N {
+			h := fixed[i-o.N]
+			cfgs[i], srcs[i] = h.Cfg, h.Src
+			ot := runHist(h.Seed, i, 0, h.Src, h.Cfg, h.Ops, cnt)
+			if ot.fail != nil {
+				ot.fail.Replay = MustJSON(hist{h.Seed, i, h.Src, h.Cfg, h.Ops})
+			}
+			outs[i] = ot
+			return
+		}
 		src := srcOf(i)
+		srcs[i] = src
 		_, np := dimsOf(src)
 		cfg := genCfg(NewRng(o.Seed, uint64(i)*2), src, np)
 		cfgs[i] = cfg
 		ot := runHist(o.Seed, i, n, src, cfg, nil, cnt)
-		if ot.fail != nil {
+		if ot.fail != nil && knownSig(ot.fail.Signature) {
+			// the known finding: reported with the history as it ran (the minimal witnesses are the fixed histories)
+			ot.fail.Replay = MustJSON(hist{o.Seed, i, src, cfg, ot.ops[:ot.fail.Step+1]})
+		} else if ot.fail != nil {
 			sig := ot.fail.Signature
 			fails := func(cand []op) bool {
 				f := runHist(o.Seed, i, 0, src, cfg, cand, nil).fail
@@ -1430,7 +1824,7 @@ func runC09(o Opts) (*Result, error) {
 	for i, ot := range outs {
 		res.Histories++
 		res.Evaluations += len(ot.ops)
-		h := hist{o.Seed, i, srcOf(i), cfgs[i], ot.ops}
+		h := hist{o.Seed, i, srcs[i], cfgs[i], ot.ops}
 		key := string(MustJSON(h.Cfg)) + string(MustJSON(ot.ops))
 		if (ot.splits["change:sync-credited-reward"] || ot.splits["claim:ok"]) && !seen[key] {
 			seen[key] = true
@@ -1459,6 +1853,11 @@ func runC09(o Opts) (*Result, error) {
 			res.QualityGate = append(res.QualityGate, k)
 		}
 	}
-	res.Extra = map[string]any{"sources_tied": []string{"swap", "delegator", "cdp-usdx-minting", "hard-supply", "hard-borrow"}}
+	sp := probeSavings()
+	if sp.ClaimCreated || sp.Verdict == "" || strings.HasPrefix(sp.Verdict, "probe failed") {
+		res.QualityGate = append(res.QualityGate, "savings-source-live-or-probe-failed")
+	}
+	res.Extra = map[string]any{"sources_tied": []string{"swap", "delegator", "cdp-usdx-minting", "hard-supply", "hard-borrow", "earn", "earn-bkava"},
+		"savings_probe": sp}
 	return res, nil
 }
